@@ -1,6 +1,6 @@
 (* Correspondence driver for C16: the Map encoder model on Maps rebuilt with different insertion
    orders (entries printed in the order the rebuilt Go map handed them out), the indented root rule,
-   Map.Json's post-processing, the Writer forms and the Maps string / file forms. *)
+   Map.Json / JsonIndent on top of the encoder's bytes, the Writer forms and the Maps string / file forms. *)
 From Mxj Require Export Run.RunXml Model.EncForms.
 
 Inductive c16case :=
@@ -9,15 +9,19 @@ Inductive c16case :=
       (* Map.XmlIndent("", "", root...) with the "\n" bytes removed (no string of m contains one) *)
 | CPerm (o : opts) (m m' : value) (root : option str)
       (* two rebuilt variants of one Map, each in its own iteration order *)
-| CJson (safe : bool) (marshalled : xout) (out : xout)
-      (* marshalled = json.Marshal(m) / json.MarshalIndent(m, p, i); out = m.Json(safe) / m.JsonIndent(p, i, safe) *)
+| CJson (encoded : xout) (out : xout)
+      (* encoded = what json.Encoder.Encode wrote for m under SetEscapeHTML(safe); out = m.Json(safe) *)
+| CJsonI (encoded : xout) (ind_in : str) (ind_out : xout) (out : xout)
+      (* json.Indent(ind_in, p, i) = ind_out (the environment, applied by the harness to the encoder's bytes
+         without the final newline); out = m.JsonIndent(p, i, safe) *)
 | CWriter (raw : bool) (enc : xout) (written : str) (ret : xout)
       (* enc = the byte-returning form; written = what reached the io.Writer; ret = XBytes returned by a Raw
          form (XBytes [] for the other forms) or XFail *)
-| CMaps (kind : nat) (safe : bool) (encs : list xout) (out : str) (failed : bool) (file : option str).
-      (* kind 0: XmlString / XmlStringIndent over the per-Map Xml results; 1: JsonString over json.Marshal
-         results; 2: JsonStringIndent over json.MarshalIndent results.  file = content written by the
-         File form (None: not written) *)
+| CMaps (kind : nat) (safe : bool) (encs_false encs_true : list xout) (out : str) (failed : bool) (file : option str).
+      (* kind 0: XmlString / XmlStringIndent over the per-Map Xml / XmlIndent results (both lists the same);
+         1: JsonString(safe) over the per-Map Json(false) and Json(true) results; 2: JsonStringIndent(p, i, safe)
+         over the per-Map JsonIndent(p, i, false / true) results.  file = content written by the File form
+         (None: not written) *)
 
 Definition res_of (x : xout) : res str :=
   match x with XBytes b => Ok b | XFail e => Err e | _ => Panic end.
@@ -52,7 +56,9 @@ Definition check_c16 (c : c16case) : bool :=
           res_str_eqb (items_bytes (map_xml_indent_items o mm root)) (items_bytes (map_xml_indent_items o mm' root))
       | _, _ => false
       end
-  | CJson safe marshalled out => res_str_eqb (map_json safe (res_of marshalled)) (res_of out)
+  | CJson encoded out => res_str_eqb (map_json (res_of encoded)) (res_of out)
+  | CJsonI encoded ind_in ind_out out =>
+      res_str_eqb (map_json_indent (fun x => if str_eqb x ind_in then res_of ind_out else Panic) (res_of encoded)) (res_of out)
   | CWriter raw enc written ret =>
       if raw then
         let '(r, w) := writer_raw_form (res_of enc) [] in
@@ -64,12 +70,12 @@ Definition check_c16 (c : c16case) : bool :=
         | Err _, XFail _ => str_eqb w written
         | _, _ => false
         end
-  | CMaps kind safe encs out failed file =>
-      let rs := map res_of encs in
+  | CMaps kind safe encs_false encs_true out failed file =>
+      let per := fun flag : bool => map res_of (if flag then encs_true else encs_false) in
       let r := match kind with
-               | 0 => maps_xml_string rs
-               | 1 => maps_json_string safe rs
-               | _ => maps_json_string_indent safe rs
+               | 0 => maps_xml_string (per safe)
+               | 1 => maps_json_string safe per
+               | _ => maps_json_string_indent safe per
                end in
       str_eqb (fst r) out &&
       Bool.eqb (match snd r with Some _ => true | None => false end) failed &&
